@@ -12,18 +12,24 @@
     dereference or an invalid page range ([core_total_partial], from the
     invariant of WfProofs.v); and for the C05 key alphabet no observation is a
     crash of any kind ([core_total_edit], a corollary of edit_refines_buffer).
-    NOT proved: that [ErrSubstr] and [ErrFuel] are unreachable for arbitrary
-    histories ([core_total_full] below is the full statement).  It needs an
-    invariant this development does not carry: segments contiguous from 0 with
-    start <= end <= |composition input|, and every selected candidate ending
-    inside its segment – the latter is broken transiently by partial
-    selections that are reopened, and is re-established only by the Compose
-    that ends the same call.  The correspondence runs (model [CRASH] lines,
+    With candidates ending at or after their segment's start, also [ErrFuel] is
+    unreachable ([core_total_except_substr]).
+    NOT proved: that [ErrSubstr] is unreachable for arbitrary histories
+    ([core_total_full] below is the full statement).  The geometric invariant
+    (segments contiguous from 0, start <= end <= |composition input|) is carried
+    and rules out the substr calls of TranslateSegments and GetCommitText; what
+    is missing is that every selected candidate of a non-last segment ends inside
+    the composition's input (the running [end] of GetPreedit / GetScriptText).
+    That needs: open segments hold only candidates that fit, closed segments a
+    fitting selected candidate, and "the last segment is open or empty at every
+    call boundary"; Segment::Reopen (stale menu until the Compose that ends the
+    call) and raw segments extended by the fallback segmentor (stale [length])
+    break it inside a call.  The correspondence runs (model [CRASH] lines,
     sanitizer aborts) have found no such case. *)
 From Coq Require Import List Arith NArith ZArith Bool Lia.
 From Coq.Strings Require Import Byte.
 From RimeV Require Import Base.Bytes Eng.Keys Eng.Cand Eng.Menu Eng.Segm Eng.Ctx Eng.Engine Eng.Procs
-     Eng.Api Eng.Oracle Eng.Spec Eng.EditProofs Eng.WfProofs Eng.CommitProofs.
+     Eng.Api Eng.Oracle Eng.Spec Eng.EditProofs Eng.WfProofs Eng.CommitProofs Eng.InvProofs.
 Import ListNotations.
 
 Definition total_hyps (cfg : config) (translate : bytes -> seginfo -> list cand) : Prop :=
@@ -45,6 +51,19 @@ Theorem core_total_partial :
   forall cfg translate, total_hyps cfg translate ->
   forall ops, Forall no_null_no_bad_range_obs (snd (run cfg translate ops)).
 Proof. intros cfg translate (H1 & H2 & H3) ops. exact (no_null_no_bad_range cfg translate H1 H2 H3 ops). Qed.
+
+(** with candidates that end at or after the start of their segment (true of
+    every translator: a candidate covers a non-negative stretch of its segment's
+    input): for ALL histories the only undefined operation still reachable in
+    the model is std::string::substr with pos > size.  In particular
+    CalculateSegmentation finishes within |input| + 1 rounds in every reachable
+    state (no [ErrFuel]) – from the geometric invariant of WfProofs.v (segments
+    contiguous from 0, start <= end <= |composition input|) and [calc_loop_ok]. *)
+Theorem core_total_except_substr :
+  forall cfg translate, total_hyps cfg translate ->
+  (forall i s c, In c (translate i s) -> si_start s <= c_end c) ->
+  forall ops, Forall obs_only_substr (snd (run cfg translate ops)).
+Proof. intros cfg translate (H1 & H2 & H3) Hce ops. exact (only_substr_can_fail cfg translate H1 H2 H3 Hce ops). Qed.
 
 (** the C05 key alphabet: no crash at all, any translator, both editors *)
 Theorem core_total_edit :
@@ -70,3 +89,18 @@ Theorem exactly_once_if_total :
     concat (map read_of (snd (run cfg translate ops))) ++ st_commit (fst (run cfg translate ops))
     = concat (deliveries cfg translate (init_state cfg) ops).
 Proof. intros Hf cfg translate Hh ops. apply exactly_once, Hf, Hh. Qed.
+
+(** the synthetic schemas of the correspondence checks meet the hypotheses *)
+Lemma oracle_translate_end input seg c : In c (oracle_translate input seg) -> si_start seg <= c_end c.
+Proof.
+  unfold oracle_translate. destruct input as [|c0 r]; [intros []|]. destruct (Byte.eqb c0 x78); [intros []|].
+  intros H. apply in_flat_map in H as (L & _ & H). apply in_map_iff in H as (j & <- & _). cbn. lia.
+Qed.
+
+Theorem core_total_except_substr_synth :
+  forall fluid dlog ops, Forall obs_only_substr (snd (run (synth_cfg fluid dlog) oracle_translate ops)).
+Proof.
+  intros fluid dlog. apply core_total_except_substr.
+  - split; [cbn; lia|]. split; [|reflexivity]. intros i s. pose proof (InvProofs.oracle_translate_length i s). cbn. lia.
+  - intros i s c. apply oracle_translate_end.
+Qed.
